@@ -220,7 +220,8 @@ pub fn gen_html(s: &mut Src, max_tokens: usize) -> String {
                     "<li><li>", "<h1><h2>", "<hgroup><h1>", "<dialog><p>", "<search><p>", "<summary><details>", "<image>",
                     "<isindex>", "<svg><image>", "<math><mglyph>", "<svg><script>", "<svg><style>", "<svg><svg/>", "<p><table>",
                     "<applet><p></applet>", "<marquee><b></marquee>", "<object><i></object>", "<selectedcontent>",
-                    "<option selected>", "</select>", "</option>", "</table>", "</td>", "</tr>", "</caption>", "</tbody>",
+                    "<option selected>", "</select>", "</head><script>", "</head><title>", "</head><meta charset=x>", "</head><style>",
+                    "<head></head><link>", "</head><template>", "</head><noframes>", "</head><base>", "</option>", "</table>", "</td>", "</tr>", "</caption>", "</tbody>",
                 ]));
             },
             _ => {
